@@ -55,6 +55,12 @@ def gen_user_section(rng, u, creator, ext=False, flavor=None, fixtures=True, plu
         eff, comp, sub = "O", 0x2000, 1
         txt = rng.choice(["not json {", '{"a": }', "[1, 2", '{"a": 1} trailing', "{'single': 'quotes'}", "NaN,", '"unterminated',
                           "<xml/>", "key=value", '{"a": 1,}', "\u00e9t\u00e9 {", "{" * 50]) + u.token(6)
+        if rng.random() < 0.35:
+            # a NUL in the MIDDLE of the text (two terminated records written back to back, a terminator in front): the
+            # bytes behind it are payload like any other, and the whole is not JSON
+            first = json.dumps(rng.choice([{"seq": 1, "id": u.token(6)}, [1, 2], "s" + u.token(5), 7]))
+            txt = rng.choice([first + "\0" + json.dumps({"seq": 2, "rc": "0x" + u.token(8)}),
+                              first + "\0\0\0\0" + u.token(7), "\0" + first, first + " \0 " + first])
         payload = nul_pad(txt.encode("utf-8"), 4, rng.choice([0, 0, 4]))
         mode = "none"
         expect = [("Data", "dumpws", payload)]
@@ -63,6 +69,9 @@ def gen_user_section(rng, u, creator, ext=False, flavor=None, fixtures=True, plu
         lines = pm.text_payload(rng, u)
         if rng.random() < 0.06:
             lines += [u.token(8) + " line %d" % k for k in range(rng.choice([300, 900, 3000]))]       # 4 .. 50 KiB of text
+        if lines and rng.random() < 0.08:
+            k = rng.randrange(len(lines))       # a NUL inside a line is a character like any other unprintable one
+            lines[k] = lines[k] + "\0" + u.token(6)
         raw = "\n".join(lines) + rng.choice(["", "\n"])
         payload = nul_pad(raw.encode("utf-8"), 4, rng.choice([0, 0, 4]))
         if not payload:
